@@ -251,7 +251,7 @@ type seqCase struct {
 }
 
 func genSeq(r *vh.Rng, layout int) *seqCase {
-	classes := []string{"valid", "valid", "valid-early-start", "valid-midyear-start", "over-capacity", "gap", "gap-1day", "gap-year-end", "short-last", "year-jump", "starts-late", "dup", "bad-date"}
+	classes := []string{"valid", "valid", "valid-early-start", "valid-midyear-start", "over-capacity", "gap", "gap-1day", "gap-year-end", "short-last", "year-jump", "starts-late", "dup", "bad-date", "gap-dec31"}
 	sc := &seqCase{Layout: layout, Class: classes[r.Intn(len(classes))]}
 	y0 := r.Range(1950, 2090)
 	if r.Chance(0.3) {
@@ -313,6 +313,27 @@ func genSeq(r *vh.Rng, layout int) *seqCase {
 			drop[ye.Z()-start.Z()-i] = true
 		}
 		sc.Dropped = fmt.Sprintf("%v-%d", ye, k)
+	case "gap-dec31": // exactly the last day of a year (leap years: a year of 365 days is not complete)
+		if ny < 2 {
+			ny = 2
+			sc.Cap = 2
+			end = proj.Date{Y: y0 + 1, M: 12, D: 31}
+			n = end.Z() - start.Z() + 1
+		}
+		yy := y0 + r.Intn(ny-1)
+		if r.Chance(0.7) { // prefer a leap year inside the series
+			for c := y0; c < y0+ny-1; c++ {
+				if isLeap(c) {
+					yy = c
+				}
+			}
+		}
+		ye := proj.Date{Y: yy, M: 12, D: 31}
+		drop[ye.Z()-start.Z()] = true
+		if isLeap(yy) && r.Chance(0.3) {
+			drop[ye.Z()-start.Z()-1] = true
+		}
+		sc.Dropped = fmt.Sprintf("%v (year of %d days)", ye, daysIn(yy))
 	case "year-jump":
 		if ny < 3 {
 			ny = 3
@@ -484,7 +505,7 @@ func readerKernelStage(c *vh.Ctx, n int) {
 			if err == nil && sc.Dropped != "" {
 				violate04(c, "search", fmt.Sprintf("reader:accepts:bad-date-line:fmt%d", layout), "reader returns no error for a file with an "+sc.Dropped+" (the day of that line is not covered)", sc)
 			}
-		case "gap", "gap-1day", "gap-year-end", "year-jump":
+		case "gap", "gap-1day", "gap-year-end", "gap-dec31", "year-jump":
 			// a series with missing days must be rejected (a duplicated line is not a gap: not judged)
 			if err == nil {
 				cls := sc.Class
